@@ -11,4 +11,14 @@ REPO="${VERIF_REPO:-/repo}"
 if [ "$TIER" = thorough ] && [ -x "$VERIF_DIR/thorough.sh" ]; then
   exec "$VERIF_DIR/thorough.sh" "$PROP" "$REPO"
 fi
-exec "$VERIF_DIR/bin/kpverify" -repo "$REPO" -property "$PROP" -tier "$TIER"
+"$VERIF_DIR/bin/kpverify" -repo "$REPO" -property "$PROP" -tier "$TIER"
+rc=$?
+if [ $rc -ne 0 ] && [ $rc -ne 1 ]; then
+  # the analyzer itself died (it reports every verdict with exit 0 or 1): the property was not decided
+  mkdir -p "$VERIF_DIR/replay/$PROP"
+  echo "analyzer exited with status $rc on $REPO" > "$VERIF_DIR/replay/$PROP/analyzer_crash.txt"
+  echo "UNDECIDED: the analyzer exited with status $rc before reaching a verdict"
+  echo "VIOLATION property=$PROP replay=$VERIF_DIR/replay/$PROP/analyzer_crash.txt"
+  exit 1
+fi
+exit $rc
